@@ -138,10 +138,14 @@ class Runner:
             plan["world"] = gen_tables(rng, S=self.S, kind="discrete", dims=(self.A,), bias={"p_stochastic": 0.0, "p_term": rng.choice([0.0, 0.2, 0.4]), "p_trunc": rng.choice([0.0, 0.15])})
             plan["time_limit"] = rng.choice([1, 2, 3, 4, 6])
         if self.mode in ("gym_direct", "lerax_to_gym", "lerax_to_gymnax", "gymnax_to_lerax"):
-            ops = [{"op": "reset", "key": rng.getrandbits(31)}]
+            def seed():
+                # boundary seeds are legal seeds like any other (0 in particular is falsy in Python)
+                return rng.choice([0, 0, 1, 2**31 - 1]) if rng.random() < 0.3 else rng.getrandbits(31)
+
+            ops = [{"op": "reset", "key": seed()}]
             for _ in range(rng.randint(3, 30)):
                 if rng.random() < 0.08:
-                    ops.append({"op": "reset", "key": rng.getrandbits(31)})
+                    ops.append({"op": "reset", "key": seed()})
                 else:
                     ops.append({"op": "step", "key": rng.getrandbits(31), "a": rng.randrange(self.A if self.mode != "gymnax_to_lerax" else 2)})
             plan["ops"] = ops
@@ -404,16 +408,29 @@ class Runner:
                 res.ok("C01", "step_obs_of_returned_state")
             cur_s = got_s
             res.steps += 1
-        # seeding contract: the same seed and actions reproduce the same trajectory
-        g2 = LeraxToGymEnv(env)
-        first = next((o for o in plan["ops"] if o["op"] == "reset"), None)
-        if first is not None:
-            o1, _ = genv.reset(seed=first["key"])
-            o2, _ = g2.reset(seed=first["key"])
-            traj1 = [o1.tolist()] + [genv.step(0)[0].tolist() for _ in range(3)]
-            traj2 = [o2.tolist()] + [g2.step(0)[0].tolist() for _ in range(3)]
+        # seeding contract (Gymnasium): reset(seed=s) re-seeds the generator, so a USED adapter and a fresh one give the same
+        # trajectory from the same seed and actions — for every seed of the plan (episode ends draw new initial states, so
+        # the key stream after the reset is visible in the trajectory)
+        seeds = []
+        for o in plan["ops"]:
+            if o["op"] == "reset" and o["key"] not in seeds:
+                seeds.append(o["key"])
+        acts = [o["a"] for o in plan["ops"] if o["op"] == "step"] or [0]
+        for sd in seeds[:4]:
+            g2 = LeraxToGymEnv(env)
+            o1, _ = genv.reset(seed=sd)
+            o2, _ = g2.reset(seed=sd)
+            K = 10
+            traj1 = [o1.tolist()] + [genv.step(acts[i % len(acts)])[0].tolist() for i in range(K)]
+            traj2 = [o2.tolist()] + [g2.step(acts[i % len(acts)])[0].tolist() for i in range(K)]
+            tr.ev("seed_contract", seed=sd, same=traj1 == traj2)
+            res.events["E.reseed_used_adapter"] += 1
+            if sd == 0:
+                res.events["E.reseed_zero"] += 1
             if traj1 != traj2:
-                self._fail13(res, props, "adapter_outputs", "same_seed_different_trajectory")
+                self._fail13(res, props, "adapter_outputs", "same_seed_different_trajectory", seed=sd)
+            else:
+                res.ok("C13", "adapter_seed_contract")
         return res
 
     def _exec_lerax_to_gymnax(self, plan, props) -> RunResult:
